@@ -117,6 +117,8 @@ func (conn *Conn) recv() {
 			req := new(SrvReq)
 			select {
 			case req.Rc = <-conn.rchan:
+				// a recycled Fcall still carries the type of its previous reply
+				req.Rc.Type = 0
 			default:
 				req.Rc = NewFcall(conn.Msize)
 			}
